@@ -434,7 +434,143 @@ def macro_def(src, item):
     return params, body.strip()
 
 
-GLOBAL_REWRITES = [rw_R2, rw_R3, rw_R6]
+def decode_bytestr(tok_text):
+    """bytes denoted by a Rust byte-string / string literal token."""
+    t = tok_text
+    if t.startswith('b'):
+        t = t[1:]
+    if t.startswith('r'):
+        h = len(t) - len(t[1:].lstrip('#')) - 1
+        inner = t[1 + h + 1: len(t) - 1 - h]
+        return inner.encode('utf-8')
+    inner = t[1:-1]
+    out = bytearray()
+    i = 0
+    while i < len(inner):
+        c = inner[i]
+        if c == '\\':
+            n = inner[i + 1]
+            if n == 'n': out.append(10); i += 2
+            elif n == 'r': out.append(13); i += 2
+            elif n == 't': out.append(9); i += 2
+            elif n == '0': out.append(0); i += 2
+            elif n == '\\': out.append(92); i += 2
+            elif n == '"': out.append(34); i += 2
+            elif n == "'": out.append(39); i += 2
+            elif n == 'x':
+                out.append(int(inner[i + 2:i + 4], 16)); i += 4
+            elif n == '\n':
+                i += 2
+                while i < len(inner) and inner[i].isspace():
+                    i += 1
+            else:
+                raise WeaveError('R16: unsupported escape \\%s' % n)
+        else:
+            out.extend(c.encode('utf-8'))
+            i += 1
+    return bytes(out)
+
+
+def rw_R16(text, site, log):
+    """byte-string literals b".." / br#".."# -> &[0x.., ..]; "lit".as_bytes() -> &[..] (same bytes, array notation:
+    this Verus knows the contents of array literals but not of byte-string literals)."""
+    toks = tokenize(text)
+    out = ''
+    last = 0
+    cnt = 0
+    i = 0
+    while i < len(toks):
+        t = toks[i]
+        if t.kind == 'str' and t.text.startswith('b'):
+            bs = decode_bytestr(t.text)
+            rep = '(&[' + ', '.join('0x%02xu8' % b for b in bs) + '])'
+            out += text[last:t.start] + rep
+            last = t.end
+            cnt += 1
+        elif t.kind == 'str' and not t.text.startswith('b') and i + 4 < len(toks) and toks[i + 1].text == '.' \
+                and toks[i + 2].text == 'as_bytes' and toks[i + 3].text == '(' and toks[i + 4].text == ')':
+            bs = decode_bytestr(t.text)
+            rep = '(&[' + ', '.join('0x%02xu8' % b for b in bs) + '])'
+            out += text[last:t.start] + rep
+            last = toks[i + 4].end
+            cnt += 1
+            i += 4
+        i += 1
+    out += text[last:]
+    log.add('R16(byte-string literal -> array literal)', site, cnt)
+    return out
+
+
+def rw_R15(text, site, log):
+    """VEC.extend(E) -> v_extend(&mut VEC, E)"""
+    cnt = 0
+    while True:
+        m = re.search(r'\b(\w+)\.extend\(', text)
+        if not m:
+            break
+        op = m.end() - 1
+        cl = balanced_end(text, op)
+        text = text[:m.start()] + 'v_extend(&mut %s, %s)' % (m.group(1), text[op + 1:cl].strip()) + text[cl + 1:]
+        cnt += 1
+    log.add('R15(VEC.extend(E)->v_extend(&mut VEC,E))', site, cnt)
+    return text
+
+
+def rw_R8(text, site, log):
+    """format!("\\u{:04x}", E).as_bytes() -> v_fmt_u04x(E).as_slice(); format!("{}", E).as_bytes() -> v_fmt_dec(E as u64).as_slice()"""
+    cnt = 0
+    while True:
+        m = re.search(r'format!\(', text)
+        if not m:
+            break
+        op = m.end() - 1
+        cl = balanced_end(text, op)
+        inner = text[op + 1:cl]
+        toks = tokenize(inner)
+        lit = toks[0]
+        if lit.kind != 'str':
+            raise WeaveError('R8: format! without literal at ' + site)
+        args = []
+        depth = 0
+        lastc = None
+        for t in toks[1:]:
+            if t.kind == 'punct' and t.text in '([{':
+                depth += 1
+            elif t.kind == 'punct' and t.text in ')]}':
+                depth -= 1
+            elif t.text == ',' and depth == 0:
+                if lastc is not None:
+                    args.append(inner[lastc:t.start].strip())
+                lastc = t.end
+        if lastc is not None and inner[lastc:].strip():
+            args.append(inner[lastc:].strip())
+        fmt = decode_bytestr(lit.text).decode('utf-8')
+        pieces = re.split(r'(\{[^}]*\})', fmt)
+        parts = []
+        ai = 0
+        for pc in pieces:
+            if pc == '':
+                continue
+            if pc == '{}':
+                parts.append('VPiece::Dec((%s) as u64)' % args[ai]); ai += 1
+            elif pc == '{:04x}':
+                parts.append('VPiece::Hex4((%s) as u32)' % args[ai]); ai += 1
+            elif pc.startswith('{'):
+                raise WeaveError('R8: unsupported format spec %s at %s' % (pc, site))
+            else:
+                bs = pc.encode('utf-8')
+                parts.append('VPiece::Lit(&[' + ', '.join('0x%02xu8' % b for b in bs) + '])')
+        rest = text[cl + 1:]
+        if not rest.startswith('.as_bytes()'):
+            raise WeaveError('R8: format! result not used via .as_bytes() at ' + site)
+        rep = 'v_format(&[%s]).as_slice()' % ', '.join(parts)
+        text = text[:m.start()] + rep + rest[len('.as_bytes()'):]
+        cnt += 1
+    log.add('R8(format!(..).as_bytes() -> v_format(pieces).as_slice())', site, cnt)
+    return text
+
+
+GLOBAL_REWRITES = [rw_R2, rw_R3, rw_R6, rw_R8, rw_R16, rw_R15]
 
 
 # --------------------------------------------------------------------------- splicing
